@@ -102,7 +102,7 @@ def one_case(gs1, ais, rng, tier, viols, cells, counters, forced=None):
             from stdnum import ean
             raw = raw[:13] + ean.calc_check_digit(raw[:13])
         if ai == '8007':
-            raw = rng.choice(['NL91ABNA0417164300', 'GB82WEST12345698765432', 'BE71096123456769'])
+            raw = rng.choice(['NL91ABNA0417164300', 'GB82WEST12345698765432', 'BE71096123456769', 'nl91abna0417164300', 'Gb82West12345698765432'])
         if props.get('type', 'str') == 'str' and (raw != raw.strip()):
             raw = raw.strip() or 'A'
         items.append((ai, props, raw))
